@@ -54,19 +54,21 @@ META = {
         "parameters and helpers); a destination that receives only one part of a split href must have the remainder stored on the same node (download_reference excepted); image alt is "
         "the text of the image token's children, agrees per token type with markdown-it's reference renderInlineAsText and visits nested inline nodes in source order (recursion or an "
         "order-preserving work list); the ordered-list start reaches the node for every legal start including 0 (decision table of the guards and the stored value), copy_attributes never "
-        "tests the truthiness of a value it copies; the code language derives from token.info. "
+        "tests the truthiness of a value it copies; the code language derives from token.info; no output-format encoder (escapeHtml, html.escape ...) lies between the href/src and the stored destination; the fragments of the library lexer add up to the code text, checked as two facts read off the docutils/pygments sources: "
+        "(1) pygments' default stripnl=True (docutils passes no options) must be switched off on the lexer on every path to the fragment loop, (2) the final newline that docutils' Lexer.merge strips must be put back. "
+        "Two instances fire on the current tree and are known findings: render_link_url stores escapeHtml(uri) as refuri, and the final newline of highlighted code is not restored in the docutils back end. "
         "R4: current_node is rebound only by setup_render, by the save/set/restore halves of current_node_context (append before the rebind) and as the final statement of the section branch of "
         "render_heading or of a helper that render_heading calls last; += on it appends in place (docutils Element.__iadd__). "
         "R5 back ends: renderer subclasses override only link/math methods and add no handler; create_md_parser's renderer argument reaches only MarkdownIt(renderer_cls=...) and no condition; both "
         "front ends render with create_md_parser(config, <DocutilsRenderer class>) of the document being parsed - directly, through a helper returning a fresh parser, or through a cache whose key covers "
         "every configuration field create_md_parser reads. "
         "R6: update_section_level_state records the section under its level, picks the parent among exactly the strictly shallower levels and removes exactly the deeper levels "
-        "(decision table of the filter over key - level, or linear form of the range bounds). Only normal control flow is judged (exception handlers are C01's subject)."
+        "(decision table of the filter over key - level, or linear form of the range bounds; a constant bound is accepted only if no call site adds an unbounded term such as self._heading_offset to the level). Only normal control flow is judged (exception handlers are C01's subject)."
     ),
     "not_decided": (
         "equality of the token tree and the doctree for all documents (needs the trees); the content model of docutils (which node may contain which); behaviour of directives/roles and of "
         "html_to_nodes; markdown-it's own tokenisation; what docutils' Lexer yields for a text; table cell alignment beyond 'computed from the current cell'; losses through library calls "
-        "(urlparse, regular expressions) on a destination; intended 'inherit from the previous sibling' values would be reported by R2(e)"
+        "(urlparse, regular expressions) on a destination; intended 'inherit from the previous sibling' values would be reported by R2(e); exactness of a caller-side compensation for the newlines the lexer strips; recursion depth on pathologically nested input"
     ),
     "trusted_base": [
         "CPython ast",
@@ -2451,6 +2453,124 @@ def _generic_copy_not_truthy(corpus: Corpus, rep: Report) -> None:
             rep.ok("C02.R3", k, f.module.site(st), "guards test the key, not the value")
 
 
+def _lexer_conservation(corpus: Corpus, rep: Report, hl: FunctionInfo) -> None:
+    """'create_highlighted_code_block must preserve code text whether or not pygments splits it': the fragments of the
+    library lexer must concatenate to the text handed in. Two independent facts are read off the library sources:
+    (1) docutils' Lexer obtains the pygments lexer with default options and pygments' default ``stripnl`` strips leading
+        and trailing newlines - the caller must switch that off on the lexer object before iterating;
+    (2) docutils' ``Lexer.merge`` strips the final newline - the caller must put it back after the fragments.
+    (The Sphinx back end and the no-language path store the text itself.)"""
+    k1 = f"{hl.fq}|pygments lexer keeps leading and trailing blank lines"
+    k2 = f"{hl.fq}|final newline dropped by docutils Lexer.merge is restored"
+    tp = hl.params[1]
+    lex_calls = [c for c in hl.local_nodes() if isinstance(c, ast.Call) and hl.module.resolve(dotted(c.func) or "").endswith("code_analyzer.Lexer")]
+    active = [c for c in lex_calls if not (len(c.args) > 2 and isinstance(c.args[2], ast.Constant) and c.args[2].value == "none")]
+    if not active:
+        rep.ok("C02.R3", k1, hl.site(), "no lexical analysis: the text is stored as one fragment")
+        rep.ok("C02.R3", k2, hl.site(), "no lexical analysis: the text is stored as one fragment")
+        return
+    ca = corpus.sibling("docutils/utils/code_analyzer.py")
+    pl = corpus.sibling("pygments/lexer.py")
+    rep.saw_sibling(ca.rel)
+    rep.saw_sibling(pl.rel)
+    init, merge = ca.functions.get("Lexer.__init__"), ca.functions.get("Lexer.merge")
+    pinit = pl.functions.get("Lexer.__init__")
+    if init is None or merge is None or pinit is None:
+        raise AnchorMissing("docutils Lexer.__init__/merge or pygments Lexer.__init__ not found")
+    glb = [c for c in init.local_nodes() if isinstance(c, ast.Call) and (dotted(c.func) or "").endswith("get_lexer_by_name")]
+    default_opts = bool(glb) and all(kwarg(c, "stripnl") is None and not any(kw.arg is None for kw in c.keywords) for c in glb)
+    stripnl_default = None
+    for n in pinit.local_nodes():
+        if isinstance(n, ast.Assign) and unparse(n.targets[0]) == "self.stripnl" and isinstance(n.value, ast.Call) and len(n.value.args) == 3 and isinstance(n.value.args[2], ast.Constant):
+            stripnl_default = n.value.args[2].value
+    merge_strips = any(isinstance(n, ast.Assign) and isinstance(n.value, ast.Subscript) and isinstance(n.value.slice, ast.Slice) and n.value.slice.upper is not None and unparse(n.value.slice.upper) == "-1" for n in merge.local_nodes())
+    if stripnl_default is None or not glb:
+        raise Unsupported("docutils/pygments lexer construction not understood")
+    loops = [n for n in hl.local_nodes() if isinstance(n, ast.For) and isinstance(n.target, ast.Tuple)]
+    if len(loops) != 1:
+        raise Unsupported("create_highlighted_code_block: fragment loop not found")
+    loop = loops[0]
+    cfg = get_cfg(hl)
+    site = hl.module.site(active[0])
+
+    # (1) stripnl
+    if not (default_opts and stripnl_default is True):
+        rep.ok("C02.R3", k1, site, "the installed docutils/pygments do not strip newlines by default")
+    else:
+        def is_false(e):
+            return isinstance(e, ast.Constant) and e.value is False
+
+        def switches_off(st) -> bool:
+            # <x>.stripnl = False | setattr(<x>, "stripnl", False) | <x>.lexer = get_lexer...(…, stripnl=False)
+            if isinstance(st, ast.Assign) and len(st.targets) == 1 and isinstance(st.targets[0], ast.Attribute):
+                t = st.targets[0]
+                if t.attr == "stripnl" and is_false(st.value):
+                    return True
+                if t.attr == "lexer" and isinstance(st.value, ast.Call) and is_false(kwarg(st.value, "stripnl")):
+                    return True
+            if isinstance(st, ast.Expr) and isinstance(st.value, ast.Call) and dotted(st.value.func) == "setattr" and len(st.value.args) == 3:
+                a = st.value.args
+                return isinstance(a[1], ast.Constant) and a[1].value == "stripnl" and is_false(a[2])
+            return False
+
+        def no_lexer_edge(n) -> bool:
+            # the branch on which the Lexer object holds no pygments lexer (nothing can be stripped)
+            if not (isinstance(n, tuple) and n[0] in ("T", "F") and isinstance(n[1], ast.If)):
+                return False
+            t, pol = n[1].test, n[0] == "T"
+            if isinstance(t, ast.UnaryOp) and isinstance(t.op, ast.Not):
+                t, pol = t.operand, not pol
+            if isinstance(t, ast.Compare) and len(t.ops) == 1 and isinstance(t.comparators[0], ast.Constant) and t.comparators[0].value is None and isinstance(t.left, ast.Attribute) and t.left.attr == "lexer":
+                return pol == isinstance(t.ops[0], (ast.Is, ast.Eq))
+            if isinstance(t, ast.Attribute) and t.attr == "lexer":
+                return not pol
+            return False
+
+        start = cfg.stmt_of(active[0])
+        leak = cfg.paths_avoiding(start, loop, lambda n: (isinstance(n, ast.stmt) and switches_off(n)) or no_lexer_edge(n) or (isinstance(n, tuple) and n[0] == "H"))
+        if leak:
+            rep.violation("C02.R3", k1, site, "docutils' Lexer builds the pygments lexer with default options and pygments' default `stripnl=True` strips leading and trailing newlines; "
+                          f"on some path from the Lexer construction to the fragment loop `stripnl` is not switched off on the lexer: code that starts or ends with blank lines is not kept verbatim by the docutils back end (```python\\n\\nx = 1\\n``` becomes 'x = 1')")
+        else:
+            rep.ok("C02.R3", k1, site, "stripnl is switched off on the pygments lexer before the fragments are read")
+
+    # (2) final newline
+    if not merge_strips:
+        rep.ok("C02.R3", k2, site, "the installed docutils Lexer.merge keeps the final newline")
+        return
+    restored = False
+    for n in hl.local_nodes():
+        if isinstance(n, ast.If) and any(isinstance(c, ast.Call) and isinstance(c.func, ast.Attribute) and c.func.attr == "endswith" and unparse(c.func.value) == tp and c.args and isinstance(c.args[0], ast.Constant) and c.args[0].value == "\n" for c in ast.walk(n.test)):
+            for st in ast.walk(n):
+                val = st.value if isinstance(st, ast.AugAssign) else (st.value.args[0] if isinstance(st, ast.Expr) and isinstance(st.value, ast.Call) and isinstance(st.value.func, ast.Attribute) and st.value.func.attr == "append" and st.value.args else None)
+                if isinstance(val, ast.Call) and _node_class(val, hl.module) is not None and any(isinstance(a, ast.Constant) and a.value == "\n" for a in val.args) and n.lineno > loop.lineno:
+                    restored = True
+    if restored:
+        rep.ok("C02.R3", k2, site, "a '\\n' child is appended after the fragments when the text ends with a newline")
+    else:
+        rep.violation("C02.R3", k2, site, "docutils' Lexer.merge strips the final newline of the token stream and nothing puts it back: with a known language the children of the literal_block add up to the code text "
+                      "minus its final newline (```python\\nx = 1\\n``` gives 'x = 1'), while the same fence without a language, and the Sphinx back end, give 'x = 1\\n'")
+
+
+ENCODERS = {"markdown_it.common.utils.escapeHtml", "html.escape", "xml.sax.saxutils.escape", "xml.sax.saxutils.quoteattr", "urllib.parse.quote_plus"}
+
+
+def _encoders_on_slice(e: ast.AST, fi: FunctionInfo) -> list[ast.Call]:
+    """Calls of output-format encoders (HTML/XML escaping ...) on the local data slice of ``e``."""
+    out = []
+    seen: set[str] = set()
+    work = [e]
+    while work:
+        x = work.pop()
+        for n in ast.walk(x):
+            if isinstance(n, ast.Call) and fi.module.resolve(dotted(n.func) or "") in ENCODERS:
+                out.append(n)
+            if isinstance(n, ast.Name) and n.id not in seen:
+                seen.add(n.id)
+                work.extend(_all_defs(fi, n.id))
+    return out
+
+
 @rule("C02.R3")
 def r3_verbatim_leaves(corpus: Corpus, rep: Report, tier: str):
     rep.rule("C02.R3", "leaf text is exactly token.content; the highlighter appends every lexer fragment once; destinations, image uri/alt, list start and code language derive from the token")
@@ -2561,6 +2681,7 @@ def r3_verbatim_leaves(corpus: Corpus, rep: Report, tier: str):
                 rep.violation("C02.R3", k, hl.module.site(loop), f"some path through the fragment loop appends `{v}` {sorted(got)} times: code text is dropped or duplicated when the lexer splits it")
         if n_hl < 4:
             rep.error("C02.R3", f"create_highlighted_code_block: only {n_hl} text flows recognised")
+        _lexer_conservation(corpus, rep, hl)
     # attributes carried over from the token
     n_dest = 0
     for klass in _renderer_classes(corpus):
@@ -2597,6 +2718,12 @@ def r3_verbatim_leaves(corpus: Corpus, rep: Report, tier: str):
                     if _mentions(value, ex[0]) and _reaches(value, fi, an, lambda n, f: isinstance(n, ast.Call) and _is_self_call(n, "get_inventory_matches")):
                         rep.assumed("C02.R3", k, fi.module.site(site_node), ex[1])
                         return
+                enc = _encoders_on_slice(value, fi)
+                if enc and _reaches(value, fi, an, _attr_source(attr)):
+                    ke = f"{fi.fq}|{key_name} is stored without output-format escaping"
+                    rep.violation("C02.R3", ke, fi.module.site(enc[0]), f"`{key_name}` is passed through `{short(enc[0].func, 30)}(...)` before it is stored in the doctree: `&` in the destination becomes `&amp;` "
+                             "in the node (the token keeps `&`, the other link/image handlers and the Sphinx back end store the raw destination), and a writer that escapes attributes itself emits `&amp;amp;`: the destination is not carried over unchanged")
+                    return
                 if _reaches(value, fi, an, _attr_source(attr)):
                     if _reaches(value, fi, an, _attr_source(attr), lossless=True):
                         rep.ok("C02.R3", k, fi.module.site(site_node), f"derives from token.attrGet({attr!r})")
@@ -2959,6 +3086,51 @@ def _keep_table(cond: ast.expr, kvar: str, level: str, keep_when: bool) -> str |
     return None
 
 
+def _unbounded_level_term(corpus: Corpus, f: FunctionInfo) -> str:
+    """Why the level handed to ``f`` (update_section_level_state) is not confined to 1..6: its call sites compute it with
+    an additive term that is not a digit of the heading tag (e.g. ``self._heading_offset`` of an include). '' if every
+    call site passes ``int(<tok>.tag[1])`` alone; Unsupported if a call site cannot be read."""
+    sites = []
+    for ci in _renderer_classes(corpus):
+        for g in ci.methods.values():
+            for c in g.local_nodes():
+                if isinstance(c, ast.Call) and _is_self_call(c, f.name):
+                    sites.append((g, c))
+    if not sites:
+        raise Unsupported(f"{f.qualname} has no call site")
+    p_lvl = f.params[2]
+    for g, c in sites:
+        a = c.args[1] if len(c.args) > 1 else kwarg(c, p_lvl)
+        if a is None:
+            raise Unsupported(f"{g.qualname}: level argument of {f.name} not found")
+        seen: set[str] = set()
+        work = [a]
+        while work:
+            x = work.pop()
+            for n in ast.walk(x):
+                if isinstance(n, ast.Attribute) and isinstance(n.value, ast.Name) and n.value.id == "self":
+                    return f"{g.qualname} adds `self.{n.attr}` (set per nested render, e.g. the :heading-offset: of an include) to the tag's digit"
+                if isinstance(n, ast.Name) and n.id not in seen:
+                    seen.add(n.id)
+                    if n.id in g.params and n.id not in ("self",) and n.id not in _tok_params(g):
+                        # a level parameter of a helper: look at that helper's call sites
+                        for ci in _renderer_classes(corpus):
+                            for h in ci.methods.values():
+                                for c2 in h.local_nodes():
+                                    if isinstance(c2, ast.Call) and _is_self_call(c2, g.name):
+                                        ps = g.params
+                                        i = ps.index(n.id) - 1
+                                        a2 = c2.args[i] if 0 <= i < len(c2.args) else kwarg(c2, n.id)
+                                        if a2 is not None and any(isinstance(y, ast.Attribute) and isinstance(y.value, ast.Name) and y.value.id == "self" for y in ast.walk(a2)):
+                                            return f"{h.qualname} adds `{short(a2, 40)}` to the tag's digit"
+                                        if a2 is not None:
+                                            for y in ast.walk(a2):
+                                                if isinstance(y, ast.Name) and y.id not in ("int", "self"):
+                                                    work.extend(_all_defs(h, y.id))
+                    work.extend(_all_defs(g, n.id))
+    return ""
+
+
 @rule("C02.R6")
 def r6_section_level_state(corpus: Corpus, rep: Report, tier: str):
     rep.rule("C02.R6", "after a heading of level L the level->section map holds L and nothing deeper; the parent is the closest strictly shallower level (filter/range decision tables)")
@@ -3064,7 +3236,15 @@ def r6_section_level_state(corpus: Corpus, rep: Report, tier: str):
                 if hi[2] < 1:
                     complaint = f"range(..., {short(it.args[1], 40)}) excludes the deepest recorded level (range's upper bound is exclusive): that stale section survives and a later heading can be attached beneath it, so its text precedes text that comes before it in the source"
             elif hi[0] == 0 and hi[1] == 0:
-                raise Unsupported(f"prune range has the constant upper bound {hi[2]}; heading levels are unbounded (heading-offset)")
+                # a constant bound is right only if no level can reach it: where do the levels come from?
+                unbounded = _unbounded_level_term(corpus, f)
+                if unbounded:
+                    complaint = (
+                        f"the removal stops at the constant {hi[2]} (exclusive), but heading levels are not bounded: {unbounded}; a section of level >= {hi[2]} "
+                        "is never removed from the level map and a later, deeper heading is attached beneath that already closed section, so its text precedes text that comes before it in the source"
+                    )
+                elif hi[2] < 7:
+                    complaint = f"the removal stops at the constant {hi[2]} (exclusive): levels {hi[2]}..6 (h{hi[2]}..h6) are never removed"
             else:
                 complaint = f"the removal stops at `{short(it.args[1], 30)}`, which does not cover all deeper levels"
         else:
@@ -3310,6 +3490,9 @@ def mutants(corpus: Corpus):
     f = base.func(R + "create_highlighted_code_block")
     st = _call_stmt(f, "node += nodes.Text(value)")
     add("c02-unclassified-fragment-dropped", "C02.R3", base, st, "pass", "every lexer fragment")
+    sn = find_node(f, lambda n: isinstance(n, ast.Assign) and isinstance(n.targets[0], ast.Attribute) and n.targets[0].attr == "stripnl")
+    add("c02-revert-stripnl-fix", "C02.R3", base, sn, "pass", "keeps leading and trailing blank lines")
+    add("c02-stripnl-left-on", "C02.R3", base, sn.value if sn is not None else None, "True", "keeps leading and trailing blank lines")
     lx = find_node(f, lambda n: isinstance(n, ast.Call) and (dotted(n.func) or "") == "Lexer")
     add("c02-lexer-fed-stripped-text", "C02.R3", base, lx.args[0] if lx else None, "text.strip()", "Lexer input")
     f = base.func(R + "render_link_url")
@@ -3318,6 +3501,7 @@ def mutants(corpus: Corpus):
     f = base.func(R + "render_image")
     c = find_node(f, lambda n: isinstance(n, ast.Assign) and unparse(n.targets[0]) == "img_node['uri']")
     add("c02-image-uri-constant", "C02.R3", base, c.value if c else None, '""', "render_image|uri")
+    add("c02-image-uri-html-escaped", "C02.R3", base, c.value if c else None, "escapeHtml(destination)", "without output-format escaping")
     f = base.func(R + "render_ordered_list")
     c = find_node(f, lambda n: isinstance(n, ast.Tuple) and any(isinstance(e, ast.Constant) and e.value == "start" for e in n.elts))
     add("c02-list-start-not-copied", "C02.R3", base, c, '("class", "id")', "start carried over")
@@ -3371,6 +3555,8 @@ def mutants(corpus: Corpus):
         mexp = unparse(rebuild.targets[0])
         add("c02-level-prune-excludes-deepest", "C02.R6", base, rebuild, f"for section_level in range(level + 1, max({mexp})):\n{ind}    {mexp}.pop(section_level, None)", "excludes the deepest")
         add("c02-level-prune-dropped", "C02.R6", base, rebuild, "pass", "never removed")
+        add("c02-level-prune-stops-at-h6", "C02.R6", base, rebuild, f"for section_level in range(level + 1, 7):\n{ind}    {mexp}.pop(section_level, None)", "not bounded")
+        add("c02-level-prune-stops-at-constant-10", "C02.R6", base, rebuild, f"for section_level in range(level + 1, 10):\n{ind}    {mexp}.pop(section_level, None)", "not bounded")
         add("c02-level-prune-drops-own-level", "C02.R6", base, rebuild.value.generators[0].ifs[0], "section_level < level", "is removed by a heading")
         add("c02-level-prune-keeps-one-deeper", "C02.R6", base, rebuild.value.generators[0].ifs[0], "section_level <= level + 1", "survives a heading")
     else:
